@@ -9,6 +9,27 @@ CHECKS = {
  'C01': dict(level='exploration', technique='differential runtime monitor: real Earley parser vs reference chart over generated grammars/inputs; step-budget watchdog for termination',
              text='Every (grammar, lexer, input) execution of the real parser is judged by an independent membership oracle; held means no disagreement on the explored cases (tens of thousands per run), not a proof over all grammars.',
              note='Trusts CPython re per terminal and the reference chart (cross-checked by a second recogniser before any alarm). Termination is a logical step budget.', ref='4 C01'),
+ 'C03': dict(level='exploration', technique='differential runtime monitor: trees returned by every engine vs documented shaping applied to reference derivations',
+             text='Every returned tree (Earley x3 lexers, LALR x2, CYK; keep_all_tokens/maybe_placeholders on and off) is compared with the set of documented shapings of the reference derivations of the same input; engines must agree on single-derivation inputs. Exploration over generated EBNF grammars using every shaping feature.',
+             note='Trusts the reference enumerator and Shaper (written from docs/tree_construction.md); cyclic grammars and grammars with duplicate empty expansions are skipped and counted.', ref='4 C03'),
+ 'C04': dict(level='exploration', technique='differential runtime monitor: expansion of _ambig trees vs reference derivation enumeration; step budget on cyclic grammars',
+             text="For every accepted input of generated ambiguous grammars the set of trees denoted by the ambiguity='explicit' result is compared with all shaped reference derivations (acyclic) or validated as derivations within a step budget (cyclic); CollapseAmbiguities is checked against an independent expander.",
+             note='Trusts reference chart/enumerator/shaper; inputs with >300 derivations are skipped and counted.', ref='4 C04'),
+ 'C05': dict(level='exploration', technique='runtime monitor: priority optimum vs reference enumeration; determinism by re-execution across calls, instances and PYTHONHASHSEED processes',
+             text="The tree returned under ambiguity='resolve' is checked to be a derivation whose total priority is the reference optimum (normal/invert), to respect the empty-alternative precedence, and to be bit-identical across repeated calls, fresh instances and fresh processes under several hash seeds.",
+             note='Hash seeds are sampled (4 quick / 16 thorough). Optimum judged only on acyclic grammars without directly empty alternatives, as the statement says.', ref='4 C05'),
+ 'C06': dict(level='exploration', technique='runtime monitor: every token/meta coordinate recomputed from the buffer (R6) + LineCounter.feed contract',
+             text='Every token of every accepted parse (5 parser/lexer pairs, str and bytes) is checked against the buffer slice and newline arithmetic; every tree node meta against the first/last token of the same node in a keep_all_tokens parse. Newline-capable terminal spellings are enumerated in the generator.',
+             note='Trusts newline counting on the buffer; meta oracle assumes keep_all_tokens keeps the rule structure of the unambiguous template grammars.', ref='4 C06'),
+ 'C07': dict(level='exploration', technique='differential runtime monitor: Lark.lex token stream vs reference lexer written from the documented precedence; basic vs contextual trees',
+             text='Token streams of the basic lexer over generated terminal sets (strings/regexps/priorities/flags, up to 150 terminals) are compared with a reference lexer implementing the documented order and keyword exception; on grammars with disjoint regexps the contextual lexer must return the same tree whenever basic succeeds.',
+             note='Trusts CPython re / regex on a single terminal; all unbounded regexps have equal width.', ref='4 C07'),
+ 'C09': dict(level='exploration', technique='runtime monitor: acceptance and child counts of x~n..m vs arithmetic oracle; small_factors contract',
+             text='For (n,m) pairs around every threshold of the factoring code (quick) and every 0<=n<=m<=140 (thorough, LALR+terminal) the parser must accept exactly k in [n,m] repetitions and return the k occurrences as consecutive children with no helper node; a contract on small_factors counts every call.',
+             note='Bounds sampled up to 400; oracle is integer arithmetic.', ref='4 C09'),
+ 'C20': dict(level='exploration', technique='differential runtime monitor: forest transformers/visitors vs reference derivation enumeration; step budget + on_cycle observation on cyclic forests',
+             text="For every accepted input the SPPF returned under ambiguity='forest' is walked by TreeForestTransformer (both modes), a counting ForestTransformer and a ForestVisitor; results are compared with the reference enumeration over the compiled rules (acyclic) or validated under a step budget with on_cycle observed (cyclic).",
+             note='Trusts reference enumerator over Lark.rules (the forest names helper rules).', ref='4 C20'),
 }
 PENDING = {}
 
